@@ -16,7 +16,8 @@ import json
 import time
 
 from ..runner import Check
-from ..subproc import child_env, pmap, run_py
+from ..subproc import child_env, pmap
+from .c18_pool import run_py
 
 REPEAT_SCRIPT = r"""
 import contextlib, io, json, sys
@@ -131,7 +132,7 @@ def rewritten_sequences(ck: Check, rn, every: bool) -> list[list[dict]]:
             cands.append((d, vals))
     must = [c for c in cands if c[0] in STRUCTURED and (every or c[0] in base.E2E_EXTRA)]   # quick: the validator-rewritten ones
     rest = [c for c in cands if c not in must]
-    chosen = must + (rest if every else rng.sample(rest, 1))
+    chosen = (must if every else rng.sample(must, 1)) + (rest if every else rng.sample(rest, 1))
     seqs = []
     for d, vals in chosen:
         a, b = (vals[0], vals[1]) if d in STRUCTURED or rn.tab[d]["kind"] == "bool" else tuple(rng.sample(vals, 2))
@@ -215,11 +216,15 @@ def option_sets(ck: Check, rn, every: bool, cache: dict | None = None) -> list[d
         if set(o) & STRUCTURED and (len(o) > 1 or sorted(o)[0] not in seen):
             picked.append(o)
             seen |= set(o) if len(o) == 1 else set()
+    # the quick tier's subprocess budget: option SETS all, four of the structured options (rotating with the seed;
+    # the thorough tier and search_repeated run every one)
+    sets_ = [o for o in picked if len(o) > 1]
+    picked = sets_ + rng.sample([o for o in picked if len(o) == 1], 2)
     strata: dict[str, list[dict]] = {}
     for o in allo:
         if not set(o) & STRUCTURED:
             strata.setdefault(rn.tab[sorted(o)[0]]["kind"], []).append(o)
-    for _kind, pool in sorted(strata.items()):
+    for _kind, pool in rng.sample(sorted(strata.items()), 1):   # one of the other kinds, rotating with the seed
         cached = [o for o in pool if json.dumps(o, sort_keys=True) in (cache or {})]
         picked += rng.sample(cached or pool, 1)
     return picked
@@ -263,7 +268,7 @@ def campaign_repeated(ck: Check, rn, cache: dict) -> None:
             jobs.append((o, "cli", 3))
     if not every:
         structured = [o for o in sets if set(o) & STRUCTURED]
-        jobs += [(o, "cli", 3) for o in rng.sample(structured, 3)]
+        jobs += [(o, "cli", 3) for o in rng.sample(structured, 1)]
     run_many(ck, camp, rn, jobs, cache)
     run_rewritten(ck, camp, rn, rewritten_sequences(ck, rn, every), cache)
     camp.wall_s = time.time() - t0
